@@ -486,11 +486,26 @@ def connect():
     from twisted.internet.testing import StringTransport
     from twisted.protocols.haproxy._wrapper import HAProxyWrappingFactory
 
-    got = []
+    class Got(list):
+        pass
+
+    got = Got()
+    got.seen = []      # [peer, host] as read by the wrapped protocol INSIDE each of its callbacks
+    got.lost = []
 
     class App(Protocol):
+        def _addrs(self):
+            try:
+                return [addr_list(self.transport.getPeer()), addr_list(self.transport.getHost())]
+            except Exception as e:
+                return [["EXC", type(e).__name__, ""], ["EXC", type(e).__name__, ""]]
+
         def dataReceived(self, data):
+            got.seen.append(self._addrs())
             got.extend(data)
+
+        def connectionLost(self, reason):
+            got.lost.append(self._addrs())
 
     f = HAProxyWrappingFactory(Factory.forProtocol(App))
     p = f.buildProtocol(address.IPv4Address(*RPEER))
@@ -501,6 +516,7 @@ def connect():
 
 def deliver(p, tr, got, data):
     n0 = len(got)
+    s0 = len(got.seen)
     close = "no"
     try:
         p.dataReceived(data)
@@ -513,7 +529,7 @@ def deliver(p, tr, got, data):
         peer, host = addr_list(app.transport.getPeer()), addr_list(app.transport.getHost())
     except Exception as e:
         peer = host = ["EXC", type(e).__name__, ""]
-    return dict(app=list(got[n0:]), close=close, peer=peer, host=host)
+    return dict(app=list(got[n0:]), close=close, peer=peer, host=host, seen=[list(x) for x in got.seen[s0:]])
 
 
 def run_case(stream, cfg, cuts):
@@ -534,6 +550,15 @@ def run_case(stream, cfg, cuts):
         ev.append(e)
         if o["close"] != "no":
             break          # a TCP transport delivers nothing after loseConnection / the reactor drops the connection
+    # the connection goes away: what the wrapped protocol reads in its connectionLost
+    from twisted.internet import error
+    from twisted.python.failure import Failure
+    try:
+        p.connectionLost(Failure(error.ConnectionDone()))
+    except Exception:
+        got.lost.append([["EXC", "connectionLost", ""], ["EXC", "connectionLost", ""]])
+    if got.lost:
+        ev.append({"e": "lost", "peer": got.lost[0][0], "host": got.lost[0][1]})
     return {"cfg": cfg, "stream": list(stream), "cuts": list(cuts), "ev": ev}
 
 
@@ -545,7 +570,9 @@ def fingerprint(t, rej):
     ev = t["ev"][rej.reached] if rej.reached < len(t["ev"]) else None
     if ev is None:
         return "end-of-trace"
-    before = sum(e["k"] for e in t["ev"][:rej.reached])
+    before = sum(e.get("k", 0) for e in t["ev"][:rej.reached])
+    if ev["e"] == "lost":
+        return "HAProxyProtocolWrapper/v%d/%s/wrong-addresses-in-connectionLost" % (cfg["ver"], c["why"])
     after = before + ev["k"]
 
     def wrong(o, m, n):
@@ -559,6 +586,8 @@ def fingerprint(t, rej):
                 ep, eh = (cfg["src"], cfg["dst"]) if c["hasaddr"] else (cfg["rpeer"], cfg["rhost"])
                 if o["peer"] != ep or o["host"] != eh:
                     return "wrong-addresses"
+                if any(x != [ep, eh] for x in o.get("seen", [])):
+                    return "wrong-addresses-inside-dataReceived"
             return None
         if o["app"] or (o["close"] == "no" and n >= c["dec"]):
             return "invalid-stream-accepted"
@@ -581,7 +610,7 @@ def report(ctx, traces, rej):
 
 
 def mutate(t, rng):
-    evs = t["ev"]
+    evs = [e for e in t["ev"] if e["e"] == "deliver"]
     if not evs:
         return None
     cfg = t["cfg"]
@@ -598,6 +627,8 @@ def mutate(t, rng):
         e["close"] = "lose"                       # a valid stream got closed
     elif r < 0.8 and not c["valid"] and e["close"] != "no" and after >= c["dec"]:
         e["close"] = "no"                         # an invalid stream was not closed in time
+    elif c["valid"] and c["hasaddr"] and after >= c["hlen"] and e["seen"] and r < 0.9:
+        e["seen"][0] = [e["seen"][0][1], e["seen"][0][0]]                # peer/host swapped as read inside dataReceived
     elif c["valid"] and c["hasaddr"] and after >= c["hlen"]:
         e["peer"] = [e["peer"][0], e["peer"][1], e["peer"][2] + "0"]   # wrong source port seen
     elif e["one"]["app"]:
@@ -608,7 +639,7 @@ def mutate(t, rng):
 
 
 def nontrivial(t):
-    return len(t["ev"]) >= 2 or not classify(t["cfg"])["valid"]
+    return len([e for e in t["ev"] if e["e"] == "deliver"]) >= 2 or not classify(t["cfg"])["valid"]
 
 
 def run(ctx):
